@@ -401,4 +401,11 @@ func runC13(c *Ctx) {
 		c.check(good, "full-length@parseNetipPrefix", f.Pos(), "a bare address becomes addr.Prefix(addr.BitLen())", "a bare address in ip_set args is not loaded as a full-length prefix")
 	}
 	_ = fmt.Sprint
+
+	// ---------------------------------------------------------------- R6
+	c.rule("R6", "text loading: each line is cleaned by recognised steps only (leading blanks stripped before any cut at a blank, '#' comments), parsed iff non-empty, errors reported", 1)
+	if f := c.fn(relNetlist, "", "LoadFromReader"); f != nil {
+		checkLineLoader(c, f, func(ci *ssa.Call) bool { return callName(ci) == relNetlist+".LoadFromText" }, "the prefix")
+	}
+
 }
